@@ -181,11 +181,12 @@ def explain(ev, inv):
     return "event not explained by the Retention contract" + (" [invariant %s]" % inv if inv else "")
 
 
-def replay_and_validate(run, vh, behaviours, label, background=None):
+def replay_and_validate(run, vh, behaviours, label, isolated=False, tf=None):
     if not behaviours:
         return None
     payload = [{k: v for k, v in b.items() if k != "_abs"} for b in behaviours]
-    tf = run.harness_parallel(vh, "retention", payload, label, procs=12)
+    if tf is None:
+        tf = run.harness_parallel(vh, "retention", payload, label, procs=12)
     names = sorted({n for b in behaviours for n in b["names"]})
     res = run.validate("RetentionTrace", TRACE_CFG % dict(mbs=q(names)), tf)
     run.cov["evaluations"] += len(behaviours)
@@ -193,6 +194,14 @@ def replay_and_validate(run, vh, behaviours, label, background=None):
     for r in res["rejections"]:
         b = byid.get(r["trace"], {})
         ev = r["rejected_event"]
+        if b and not isolated and ev.get("a") in ("scanend", "join", "start") and (ev.get("within") is False or ev.get("returned") is False):
+            # a missed deadline is re-run once in isolation before it is reported (DESIGN.md 3.6: slow machine)
+            run.log("deadline missed in %s (%s ms): re-running the behaviour in isolation" % (b["id"], ev.get("elapsed_ms")))
+            again = replay_and_validate(run, vh, [b], label + "-iso%d" % len(run.violations), isolated=True)
+            run.cov["evaluations"] -= 1
+            if again is not None and not again["rejections"]:
+                run.log("not reproduced in isolation: not reported")
+            continue
         obs = {k: ev.get(k) for k in ("a", "c", "mb", "how", "r", "rc", "returned", "within", "cancelled", "elapsed_ms", "visits", "s", "serr") if k in ev}
         what = ("C12 retention removes exactly the expired messages / stops promptly: store=%s period=%sh mode=%s %s: event #%d: %s; observed %s") % (
             b.get("store"), b.get("period_h"), b.get("mode"), describe(b), r["rejected_event_index"], explain(ev, r.get("invariant")),
@@ -288,16 +297,7 @@ def c12(run, args):
         th.join()
         if "err" in holder:
             raise holder["err"]
-        names = sorted({n for b in long_beh for n in b["names"]})
-        res = run.validate("RetentionTrace", TRACE_CFG % dict(mbs=q(names)), holder["tf"])
-        run.cov["evaluations"] += len(long_beh)
-        byid = {b["id"]: b for b in long_beh}
-        for r in res["rejections"]:
-            b = byid.get(r["trace"], {})
-            ev = r["rejected_event"]
-            run.violation("C12 retention run loop (Start/Join, scan started by the loop): store=%s period=%sh %s: event #%d: %s" % (
-                b.get("store"), b.get("period_h"), describe(b), r["rejected_event_index"], explain(ev, r.get("invariant"))),
-                {"behaviour": b, "rejection": r, "replay_kind": "retention"})
+        replay_and_validate(run, vh, long_beh, "long", tf=holder["tf"])
     run.cov["rule"] = ("TLC enumerates every distribution of message ages {older, younger than the period} over the stated mailboxes x messages; for each, the "
                        "undisturbed scan, one environment operation (delivery of an older/younger message, removal of the first/last message, purge; target: an "
                        "already visited / not yet visited / empty-at-start mailbox, or the mailbox the file-store walk is about to open) at every position of the scan "
